@@ -325,8 +325,52 @@ def list_rules(ctx):
                           "after %s the flag says a separator %s needed, but the buffer ends the other way: an element is emitted with a missing or an extra `,` (array hole / syntax error)" % (bad[0], "is"),
                           witness=None if not bad else "{{ [a, ...b, c] }} emits [].concat([D.a],D.b,[,D.c])",
                           sample=[d for _ok, d in res][:6]))
+    # array holes: the arm for an empty slot writes the pending separator (if any) AND one comma of its own
+    holes = 0
+    for f in tc.fns:
+        if not f.body or "proc_gen" not in f.module:
+            continue
+        for flag, buf, loop in sepflags.find_flags(f):
+            for m in sir.walk(loop["body"]):
+                if m.get("k") != "match":
+                    continue
+                for a in m["arms"]:
+                    if "EmptySlot" not in sir.pat_str(a["pat"]):
+                        continue
+                    holes += 1
+                    paths = sepflags.run_paths(a["body"], flag, buf, [sepflags.Path()])
+                    probs = []
+                    for pth in paths:
+                        want = {True: ",,", False: ","}.get(pth.pre)
+                        if want is None:
+                            probs.append("a path writes %r without consulting `%s`: a pending separator is not flushed, the hole collapses into it" % (pth.text, flag))
+                        elif pth.text != want:
+                            probs.append("with %s=%s the arm writes %r (expected %r)" % (flag, pth.pre, pth.text, want))
+                        post = pth.post if pth.post is not None else pth.pre
+                        if post is not False:
+                            probs.append("after the hole the flag must be false (the buffer ends with `,`)")
+                    obs.append(ob("C03.lists/hole/%s/%s" % (f.qual, buf), not probs, ctx.where(f), "; ".join(sorted(set(probs))) if probs else "an empty slot writes the pending separator and its own comma (`,,` after an element, `,` otherwise)",
+                                  witness=None if not probs else "{{ [a,,b] }} is emitted as [D.a,D.b]"))
+    if holes < 1:
+        obs.append(ob("C03.floor/hole-arm", False, "proc_gen/expr.rs", "no empty-slot arm found in a list emitter (floor 1)"))
     if n < 4:
         obs.append(ob("C03.floor/list-flags", False, "proc_gen/expr.rs", "only %d separator flags found (floor 4)" % n))
+    # decimal scanner: a `.` or an exponent turns the literal into a float (the integer accumulator is given up)
+    pn = [f for f in tc.fns if f.name == "parse_number" and f.body and "parse" in f.module]
+    if pn:
+        f = pn[0]
+        marks = {}
+        for x in sir.walk(f.body):
+            if x.get("k") == "if" and x["cond"].get("k") == "binary" and x["cond"].get("op") == "==" and sir.expr_str(x["cond"]["l"]) == "next" and x["cond"]["r"].get("t") == "char":
+                ch = x["cond"]["r"]["v"]
+                if ch in ".eE":
+                    top = [st.get("e") for st in x["then"]["stmts"] if st.get("k") == "expr"]
+                    marks[ch] = any(e is not None and e.get("k") == "assign" and sir.expr_str(e["l"]) == "int" and sir.expr_str(e["r"]) == "None" for e in top)
+        for ch in (".", "e"):
+            okm = marks.get(ch) is True
+            obs.append(ob("C03.literal/float-mark/%s" % ("dot" if ch == "." else "exp"), okm, ctx.where(f),
+                          "after `%s` the literal is no longer an integer (`int = None` at the top of that branch): %s" % (ch, marks.get(ch)),
+                          witness=None if okm else "{{ 2e3 }} evaluates to 2"))
     # accumulators of the integer-literal scanner: every digit reaches every accumulator
     for f in tc.fns:
         if not f.body or "parse" not in f.module:
